@@ -89,6 +89,17 @@ func c20eval(c c20Case) []ev.Finding {
 		before = astx.Dump(astx.Full, sel)
 		cols = sel.ColumnNames()
 		cols2 = sel.ColumnNames()
+		// a pure function gives the same answer every time: eight more calls (an answer that depends on the iteration
+		// order of a small map differs between two calls only now and then)
+		more := 2
+		for _, f := range c.Fields {
+			if c20fields[f].extra >= 1 {
+				more = 64 // several columns from one field: a small Go map iterates in its usual order seven times out of eight
+			}
+		}
+		for k := 0; k < more && strings.Join(cols, "\x00") == strings.Join(cols2, "\x00"); k++ {
+			cols2 = sel.ColumnNames()
+		}
 		after = astx.Dump(astx.Full, sel)
 	}); p != nil {
 		return []ev.Finding{{Sig: "panic:" + ev.SigSafe(fmt.Sprint(p)), Witness: wit, Detail: fmt.Sprint(p) + "\n" + st, Case: c}}
